@@ -37,6 +37,7 @@ const (
 	ActFailNoCode = "fail-nocode"
 	ActSilent   = "silent"   // never answer
 	ActLate     = "late"     // answer after the client's RPC timeout
+	ActSlow     = "slow"     // answer normally, 5 s later (within the RPC timeout)
 	ActDup      = "dup"      // answer twice
 	ActClose    = "close"    // close the session instead of answering
 	ActConflict = "conflict" // branch register / lock query: lock conflict
@@ -346,6 +347,9 @@ func (tc *TC) OnFrame(sess int, f *Frame) {
 	var extra time.Duration
 	if act == ActLate {
 		extra = tc.RPCTimeout + 1500*time.Millisecond
+	}
+	if act == ActSlow {
+		extra = 5 * time.Second
 	}
 	resp := &Msg{Code: ResultCodeFor(m.Code), Result: ResultSuccess}
 	fail := func(msg string, ex byte) {
